@@ -123,6 +123,12 @@ def main_file_functions(ast, src):
 def params_of(fn):
     return ['%s %s' % (p['type']['qualType'], p.get('name', '')) for p in fn.get('inner', []) if p.get('kind') == 'ParmVarDecl']
 
+def ptypes_of(fn):
+    return [p['type']['qualType'] for p in fn.get('inner', []) if p.get('kind') == 'ParmVarDecl']
+
+def pnames_of(fn):
+    return [p.get('name', '') for p in fn.get('inner', []) if p.get('kind') == 'ParmVarDecl']
+
 def weight_of(body, callee):
     """the other factor of the product containing the elemental call: find BinaryOperator `*` with a CallExpr operand"""
     found = []
@@ -171,7 +177,7 @@ def main():
         w = weight_of(body, callee)
         if len(w) != 1: problems.append('%s: elemental call is not one factor of exactly one product' % name)
         if lines not in templates: templates.append(lines)
-        entries.append(dict(name=name, ret=sig.split('(')[0].strip(), params=params_of(fn), callee=callee, args=args,
+        entries.append(dict(name=name, ret=sig.split('(')[0].strip(), ptypes=ptypes_of(fn), pnames=pnames_of(fn), callee=callee, args=args,
                             weight=(w[0][1] if w else ''), side=(w[0][0] if w else ''), tmpl=templates.index(lines)))
     # ---- refractive_indices.c ----------------------------------------------------------------------------------
     src2 = os.path.join(repo, 'src', 'refractive_indices.c')
@@ -188,12 +194,12 @@ def main():
     # ---- Lean ---------------------------------------------------------------------------------------------------
     L = ['/-! GENERATED by tools/c06extract.py from src/cs_cp.c and src/refractive_indices.c (clang-14 AST) — do not edit -/',
          'namespace XrlC06', 'namespace Gen', '',
-         'structure CpEntry where', '  name : String', '  ret : String', '  params : List String', '  callee : String',
+         'structure CpEntry where', '  name : String', '  ret : String', '  ptypes : List String', '  pnames : List String', '  callee : String',
          '  args : List String', '  weight : String', '  side : String', '  tmpl : Nat', '  deriving Repr, DecidableEq', '',
          'structure RefrFn where', '  name : String', '  ret : String', '  params : List String', '  body : List String', '  deriving Repr, DecidableEq', '']
     def ent(e):
-        return '{ name := %s, ret := %s, params := %s, callee := %s, args := %s, weight := %s, side := %s, tmpl := %d }' % (
-            lstr(e['name']), lstr(e['ret']), '[' + ', '.join(lstr(x) for x in e['params']) + ']', lstr(e['callee']),
+        return '{ name := %s, ret := %s, ptypes := %s, pnames := %s, callee := %s, args := %s, weight := %s, side := %s, tmpl := %d }' % (
+            lstr(e['name']), lstr(e['ret']), '[' + ', '.join(lstr(x) for x in e['ptypes']) + ']', '[' + ', '.join(lstr(x) for x in e['pnames']) + ']', lstr(e['callee']),
             '[' + ', '.join(lstr(x) for x in e['args']) + ']', lstr(e['weight']), lstr(e['side']), e['tmpl'])
     L.append('def cpTable : List CpEntry := ' + llist(entries, ent, '  ')); L.append('')
     L.append('def cpTemplates : List (List String) := ' + llist(templates, lambda t: llist(t, lstr, '      '), '  ')); L.append('')
